@@ -2,6 +2,7 @@
 mod common;
 mod c20;
 mod c07;
+mod c02;
 mod c19;
 mod c05;
 mod c12;
@@ -91,6 +92,7 @@ fn main() {
   let (generate, exec): (fn(u64, bool, &mut Sink) -> Vec<String>, fn(&str) -> String) = match prop {
     "C20" => (c20::generate, c20::exec),
     "C07" => (c07::generate, c07::exec),
+    "C02" => (c02::generate, c02::exec),
     "C19" => (c19::generate, c19::exec),
     "C05" => (c05::generate, c05::exec),
     "C12" => (c12::generate, c12::exec),
